@@ -313,10 +313,11 @@ class _ReadSourceGenerator:
                 reads.append(f"_t = {self._map_field(field)}")
                 reads.append("_et = _t.type")
 
-                if issubclass(field_type.type, Int):
+                if issubclass(read_type, Int) and not issubclass(field_type.type, Pointer):
+                    # Byte based integers (and enums of them) are decoded per element from their own bytes
                     reads.append(f"_b = {getter}")
-                    item_parser = parser_template.format(type="_et", getter=f"_b[i:i + {field_type.type.size}]")
-                    list_comp = f"[{item_parser} for i in range(0, {count}, {field_type.type.size})]"
+                    item_parser = parser_template.format(type="_et", getter=f"_b[i:i + {read_type.size}]")
+                    list_comp = f"[{item_parser} for i in range(0, {count}, {read_type.size})]"
                 elif issubclass(field_type.type, Pointer) and issubclass(read_type, Int):
                     # The pointer type is a byte based integer (e.g. uint24), decode every element from its bytes
                     reads.append(f"_b = {getter}")
